@@ -26,4 +26,34 @@ GoskBranchBytes(mn, a, t, b) ==
      ELSE CASE GoskOffsetSize(rel) = 1 -> <<112 + cc>> \o LE(rel - 2, 1)
             [] GoskOffsetSize(rel) = 2 -> <<15, 128 + cc>> \o LE(rel - 4, 2)
             [] OTHER -> <<15, 128 + cc>> \o LE(rel - 6, 4)
+
+\* D_Prefix66: pkg/ng_operand/requires.go Require66h -- the operand-size prefix is decided from an "inherent size"
+\* of EACH operand: register width, control register = 32, immediate = smallest signed class that holds the
+\* value AS WRITTEN (8/16/32/64), untyped memory = address-register width (else the mode); memory WITH a size
+\* keyword contributes nothing.  66h is emitted iff some operand's inherent size is the other mode's size.
+ImmClass(v, hexwritten) == IF hexwritten /\ v < 0 THEN 64          \* written as 0x80000000..0xffffffff: beyond int32
+                           ELSE IF FitsS8(v) THEN 8 ELSE IF FitsS16(v) THEN 16 ELSE 32
+Inherent(o, b, V(_)) ==
+  CASE o.t = "r" -> o.w
+    [] o.t = "c" -> 32
+    [] o.t = "i" -> ImmClass(o.v, o.sty = "h")
+    [] o.t = "l" -> 8        \* a label operand reaches codegen by name: it never triggers the prefix
+    [] o.t = "m" -> IF o.w # 0 THEN 0 ELSE IF o.aw = 32 THEN 32 ELSE IF o.aw = 16 THEN 16 ELSE b
+    [] OTHER -> 0
+Gosk66(s, b, V(_)) == \E j \in 1..Len(s.ops) : LET inh == Inherent(s.ops[j], b, V) IN (b = 16 /\ inh = 32) \/ (b = 32 /\ inh = 16)
+Ref66(s, b) == LET w == SrcWidth(s.ops) IN w \in {16, 32} /\ w # b
+
+Has66(bytes) == \E i \in 1..NPrefix(bytes) : bytes[i] = 102
+First66(bytes) == CHOOSE i \in 1..NPrefix(bytes) : bytes[i] = 102 /\ \A j \in 1..(i - 1) : bytes[j] # 102
+Strip66(bytes) == LET i == First66(bytes) IN Sub(bytes, 1, i - 1) \o Sub(bytes, i + 1, Len(bytes))
+
+\* the bytes are exactly what the reference allows EXCEPT for the 66h prefix, which follows gosk's rule
+Dev66(bytes, s, b, V(_)) ==
+  /\ s.mn \in {"MOV", "ADD", "SUB", "CMP", "AND", "OR", "XOR", "NOT", "SHL", "SHR", "SAR", "IMUL", "PUSH", "POP"}
+  /\ ~(s.mn = "MOV" /\ \E j \in 1..Len(s.ops) : s.ops[j].t = "c")
+  /\ IF Gosk66(s, b, V)
+     THEN Has66(bytes) /\ ~Ref66(s, b) /\ Denotes(Strip66(bytes), s, b, V)
+          /\ (MinLen(s, b, V) > 0 => Len(bytes) - 1 <= MinLen(s, b, V))
+     ELSE ~Has66(bytes) /\ Ref66(s, b) /\ Denotes(<<102>> \o bytes, s, b, V)
+          /\ (MinLen(s, b, V) > 0 => Len(bytes) + 1 <= MinLen(s, b, V))
 =============================================================================
